@@ -108,7 +108,7 @@ func calleeFullName(ci ssa.CallInstruction) string {
 	if f := cc.StaticCallee(); f != nil {
 		if o := origin(f).Object(); o != nil {
 			if fo, ok := o.(*types.Func); ok {
-				return fo.Origin().FullName()
+				return unrename(fo.Origin().FullName(), fo)
 			}
 		}
 		return origin(f).String()
@@ -361,7 +361,7 @@ func fieldName(t types.Type, idx int) string {
 		t = p.Elem()
 	}
 	if st, ok := t.Underlying().(*types.Struct); ok && idx < st.NumFields() {
-		return st.Field(idx).Name()
+		return vname(st.Field(idx))
 	}
 	return fmt.Sprintf("f%d", idx)
 }
